@@ -108,6 +108,67 @@ def run(tier, seed):
             ck.violation('C13:real:%d:%s' % (year, '-'.join(re.sub(r'[^a-z ]+', ' ', p.lower()).split()[:4])), p,
                          {'kind': 'failing-input', 'year': year, 'forms': forms, 'seed': sseed, 'profile': prof,
                           'problems': probs[:5]}, found=True)
+    # the real CLI entry point (habutax.solve with --prompt-missing --writeback-input, stdin scripted): a complete session, then the same
+    # file with a few answers deleted INSIDE their sections (every section still present), then the file that session wrote back
+    from . import c20
+    import configparser
+    workdir = os.path.join(ck.build, 'cli_sessions')
+    os.makedirs(workdir, exist_ok=True)
+    cli_kinds = {}
+    class Replaying(object):
+        """answers a question the way the first session answered it (the policy's own stream depends on the order of the questions)"""
+        def __init__(self, fixed, pol):
+            self.fixed, self.pol = fixed, pol
+
+        def answer(self, inp, H):
+            return self.fixed[inp.name()] if inp.name() in self.fixed else self.pol.answer(inp, H)
+    import itertools
+    for idx, (year, forms, sseed, prof) in enumerate(itertools.islice(scenarios.scenario_stream(random.Random(seed + 1313), 40), 4 if tier == 'quick' else 24)):
+        path = os.path.join(workdir, 'cli_%d.ini' % idx)
+        open(path, 'w').close()
+        pol = lambda: scenarios.Policy(sseed, dict(prof, year=year), None)  # noqa
+        s1 = c20.Script(Hr, year, pol())
+        exc1, _ = c20.cli_session(Hr, year, forms, path, s1)
+        if exc1 is not None or not s1.asked:
+            cli_kinds['first session aborted'] = cli_kinds.get('first session aborted', 0) + 1
+            continue
+        sol1 = c20.read_file(path + '.solution') if os.path.exists(path + '.solution') else None      # values by section and key: the order of the lines in the file follows the order of solving
+        probs = []
+        cp = configparser.ConfigParser(interpolation=None)
+        cp.read(path)
+        prng = random.Random(sseed)
+        # delete answers whose section keeps at least one other key
+        cands = [(n.split('.')[0], n.split('.')[1]) for (n, a) in s1.asked if cp.has_section(n.split('.')[0]) and len(cp.options(n.split('.')[0])) > 1]
+        prng.shuffle(cands)
+        deleted = []
+        for sec, opt in cands[:4]:
+            if cp.has_option(sec, opt) and len(cp.options(sec)) > 1:
+                cp.remove_option(sec, opt)
+                deleted.append('%s.%s' % (sec, opt))
+        with open(path, 'w') as f:
+            cp.write(f)
+        first = {n: a for (n, a) in s1.asked}
+        s2 = c20.Script(Hr, year, Replaying(first, pol()))
+        exc2, _ = c20.cli_session(Hr, year, forms, path, s2)
+        asked2 = [n for (n, a) in s2.asked]
+        extra_asked = [n for n in asked2 if n.lower() not in [d.lower() for d in deleted]]
+        if extra_asked:
+            probs.append('the CLI asked for inputs that the file supplies: %s' % extra_asked[:3])
+        s3 = c20.Script(Hr, year, Replaying(first, pol()))
+        exc3, _ = c20.cli_session(Hr, year, forms, path, s3)
+        if exc2 is None and s3.asked:
+            probs.append('after a CLI run with write-back (answers added inside existing sections) the re-run asked again for %s' % [n for n, a in s3.asked][:3])
+        sol3 = c20.read_file(path + '.solution') if os.path.exists(path + '.solution') else None
+        if exc2 is None and exc3 is None and not s3.asked and sol1 is not None and sol3 != sol1:
+            probs.append('the CLI re-run on the written-back file produced a different solution file')
+        ck.count(('cli', year, sseed), nontrivial=bool(deleted) and bool(asked2))
+        cli_kinds['three-session round'] = cli_kinds.get('three-session round', 0) + 1
+        for p in probs[:2]:
+            ck.violation('C13:cli:%d:%s' % (year, '-'.join(re.sub(r'[^a-z ]+', ' ', p.lower()).split()[:5])), p,
+                         {'kind': 'failing-input', 'year': year, 'forms': forms, 'seed': sseed, 'profile': prof, 'deleted_from_file': deleted,
+                          'asked_second_session': asked2[:10], 'asked_third_session': [n for n, a in s3.asked][:10],
+                          'how': 'habutax.solve(args) with prompt_missing and writeback_input, stdin scripted (vlib/c20.cli_session)'}, found=True)
+    ck.cov['cli_sessions'] = cli_kinds
     ck.cov['real_form_scenarios'] = kinds
     ck.sample({'generated_case': cases[1]})
     return sf.finish_family(ck, 'C13')
